@@ -788,6 +788,12 @@ class Repository:
                 contents = self._get_cached(path)
             except FileNotFoundError:
                 pass
+            else:
+                # A write to the cache may have been interrupted, don't trust
+                # the entry any further than the backend copy
+                if self.props.hash_digest(contents) != expected_digest:
+                    logger.info('Cached copy of %s is invalid, ignoring it', path)
+                    contents = None
 
         if contents is None:
             contents = self._download_threadsafe(path, loop=loop)
